@@ -11,6 +11,15 @@ NOTE = ("Trusted base: the Go type checker (go/types), go/packages loading of /r
 
 # id -> (technique, level text, design ref)
 CLAIMS = {
+ "C10": ("dominance / must-pass-through on the SSA CFG of visitFunctionBody + no-early-exit check of the condition-wrapper loop + census of the compiler's condition desugaring + save/restore discipline of the post-condition index",
+         "Structural necessary conditions: pre-conditions precede the body and post-conditions precede every return after it, every declared function is considered for inherited conditions, the compiler desugars both condition kinds and never loses the enclosing function's post-condition target.",
+         "DESIGN.md §4 C10"),
+ "C22": ("controlling-condition analysis of the storage API natives (existence test before write, dynamic type test before every typed result), constant transfer-mode arguments, value-flow of check's result, who-may-call of partial iterators",
+         "Structural necessary conditions: save never overwrites, copy/load/check/borrow results are governed by the dynamic subtype test, copy does not remove and load does, and path enumeration iterates the complete storage map.",
+         "DESIGN.md §4 C22"),
+ "C26": ("dominance and assumption-restricted reachability over the contract natives (existence consulted before borrow/change, validation before update, instantiate before code change, enum guard before removal) + loop-exit lint of the enum search + recover-arm table",
+         "Structural necessary conditions: lifecycle guards and their order are present on every path: no borrow without deployed code, no update without validation, no code change before fallible instantiation, no removal of enum-declaring contracts.",
+         "DESIGN.md §4 C26"),
  "C29": ("controlling-condition analysis (SSA CFG) of the argument store in importValidatedArguments + who-may-call + pinned recursion census of ConformsToStaticType + SSA error-flow of the type-conversion/import functions",
          "Structural necessary conditions: an argument is accepted only under all six validation outcomes, decoding/import is reachable only through the validating function, nested values are conformance-checked, and no conversion error is dropped or overwritten.",
          "DESIGN.md §4 C29"),
